@@ -10,7 +10,7 @@
     code by the correspondence run (answers, executions, bookkeeping) rather than by proof. *)
 From QV Require Import Common.Prelude Engine.Model Engine.Core Engine.CoreSpec Engine.CoreSound.
 From QV Require Import Engine.Fw Engine.FwSpec Engine.FwSound.
-From QV Require Import Engine.MdlSpec Engine.MdlSound.
+From QV Require Import Engine.MdlSpec Engine.MdlSound Engine.MdlNoPanic.
 
 (** every answer [z] the model gives to a query at position [i] of a history is the
     from-scratch value of that query under the inputs committed by the first [i] operations *)
@@ -87,6 +87,17 @@ Theorem C01_model_sound_x :
                 ext_after (firstn (S i) ops) (firstn (S i) (run_history p init_state ops))) n z.
 Proof. exact MdlSound.model_sound_x. Qed.
 
+(** no panic, no stuck request: ANY history (refresh, world changes, restarts, earlier queries
+    that panicked or ran out of fuel), no fuel hypothesis *)
+Theorem C01_model_no_panic :
+  forall p ops i n r, wf_model_x p ->
+    nth_error ops i = Some (OQuery n) -> alookup p n <> None ->
+    nth_error (run_history p init_state ops) i = Some r ->
+    inputs_cover p (inputs_after (firstn i ops)) ->
+    (exists z, r_out r = RValue z) \/ r_out r = RFuel.
+Proof. exact MdlNoPanic.model_no_panic_x. Qed.
+Check mex_uncovered.   (* both premises are needed *)
+
 Theorem C01_model_unguarded_refuted : ~ model_sound_statement_unguarded.
 Proof. exact MdlSound.model_sound_unguarded_refuted. Qed.
 
@@ -110,4 +121,5 @@ Print Assumptions C01_fw_sound.
 Print Assumptions C01_fw_unguarded_refuted.
 Print Assumptions C01_model_sound.
 Print Assumptions C01_model_sound_x.
+Print Assumptions C01_model_no_panic.
 Print Assumptions C01_model_unguarded_refuted.
